@@ -16,6 +16,8 @@
 (*   ptr   p := ^mut s.x; p^ = v        cast  s.x = T.(w) (struct cast)     *)
 (*   castw s.x = T.(w), w of a struct / array type whose members are wider *)
 (*         and in another order (member-wise converting cast)              *)
+(*   castr s.x = T.(w), w of a struct type with the SAME member names and  *)
+(*         types in the reverse order (members are matched by name)        *)
 (*   elem0 / elem1  s.x[k] = v          local x is a local between guards   *)
 (*   litrev  S is BUILT by a struct literal whose members are written in    *)
 (*           reverse order, x copied from a variable                        *)
@@ -103,11 +105,12 @@ Img(t, sd) ==
       [] t.k = "void" -> <<>>
 
 (* ------------------------------------------------------------------- cases *)
-Kinds == {"copy", "lit", "conv", "arg", "ptr", "cast", "castw", "elem0", "elem1", "local", "litrev", "cadd", "caddw"}
+Kinds == {"copy", "lit", "conv", "arg", "ptr", "cast", "castw", "castr", "elem0", "elem1", "local", "litrev", "cadd", "caddw"}
 Applies(t, kd) ==
     CASE kd = "conv" -> t.k \in {"enum", "opt", "eu"}
       [] kd = "cast" -> t.k \in {"struct", "anonstruct"}
       [] kd = "castw" -> t \in CastWTys
+      [] kd = "castr" -> t.k \in {"struct", "anonstruct"} /\ Len(t.ms) >= 2
       [] kd = "cadd" -> t.k = "int"
       [] kd = "caddw" -> t.k = "int" /\ t.w < 64     \* the right-hand side is a u64 (if the checker accepts that)
       [] OTHER -> TRUE
